@@ -31,9 +31,15 @@ impl Typstyle {
         let attrs = AttrStore::new(node.get()); // Here we only compute the attributes of that subtree.
         let printer = PrettyPrinter::new(self.config.clone(), attrs);
         let mut ctx = Context::default().with_mode(mode);
-        if mode.is_math() && node.kind() != SyntaxKind::Equation {
-            // Everything below a `Math` node is laid out with breaks suppressed (see `convert_math`).
-            ctx = ctx.suppress_breaks();
+        // Everything below a `Math` node is laid out with breaks suppressed (see `convert_math`),
+        // also the code after a hash and the content blocks inside it.
+        let mut ancestor = node.parent();
+        while let Some(n) = ancestor {
+            if n.kind() == SyntaxKind::Math {
+                ctx = ctx.suppress_breaks();
+                break;
+            }
+            ancestor = n.parent();
         }
         let doc = if let Some(markup) = node.cast() {
             printer.convert_markup(ctx, markup)
@@ -98,8 +104,16 @@ fn get_node_cover_range_impl(
         SyntaxKind::Equation => Mode::Math,
         _ => mode,
     };
+    // In math, the expression after a hash is code (see `convert_math`).
+    let mut after_hash = false;
     for child in node.children() {
-        if let Some(res) = get_node_cover_range_impl(range.clone(), child, mode) {
+        let child_mode = if after_hash && mode == Mode::Math {
+            Mode::Code
+        } else {
+            mode
+        };
+        after_hash = child.kind() == SyntaxKind::Hash;
+        if let Some(res) = get_node_cover_range_impl(range.clone(), child, child_mode) {
             return Some(res);
         }
     }
